@@ -4,6 +4,7 @@ from hypothesis import strategies as st
 from pbt import canon, strategies as S
 from pbt.lib import UnmarshalingException, call, dump_frame, frame, frame_kind, \
     make_frame
+from pbt import fuzzrun
 from pbt.runner import Component, Violation, lib_site
 
 PROPERTY_ID = 'C06'
@@ -304,4 +305,10 @@ COMPONENTS = [
               nontrivial=envelope_nontrivial,
               budget={'quick': 16000, 'thorough': 320000},
               describe='mutated frames and synthetic buffers; invariant on success'),
+    Component('fuzz', check_envelope, bulk=fuzzrun.make_bulk('C06', 'C06', {'quick': 60000,
+                                                               'thorough': 3000000}),
+              distinct_by_construction=True,
+              shards={'quick': 4, 'thorough': 16},
+              describe='atheris coverage-guided campaigns (oracle inside the target); '
+                       'every 4th campaign starts from an empty corpus'),
 ]
